@@ -497,6 +497,12 @@ sf_open_virtual	(SF_VIRTUAL_IO *sfvirtual, int mode, SF_INFO *sfinfo, void *user
 		return NULL ;
 		} ;
 
+	/* As for sf_open_fd : the resource fork of an SD2 file is found by file name. */
+	if ((SF_CONTAINER (sfinfo->format)) == SF_FORMAT_SD2)
+	{	sf_errno = SFE_SD2_FD_DISALLOWED ;
+		return NULL ;
+		} ;
+
 	if ((psf = psf_allocate ()) == NULL)
 	{	sf_errno = SFE_MALLOC_FAILED ;
 		return	NULL ;
